@@ -17,8 +17,7 @@ Processes:
 * delayed-interrupt processes (`dprocs`).
 
 Time in ticks; p1 = item_length / speed (ticks), travel = capacity * p1.  Domain: every item has the
-conveyor's item length; an object is put only while it is not on the belt; API calls do not interleave
-between a put and the Initialize of its move process (SimPy: URGENT).  Where `_get_belt_pattern` raises
+conveyor's item length; an object is put only while it is not on the belt.  Where `_get_belt_pattern` raises
 (two items computed into slot 0 …) the model gives up (`gaveUp`): the correspondence check stops comparing
 that history there and counts it.
 -/
